@@ -1,5 +1,6 @@
 import ActixNet.Lemmas.SrvListen
 import ActixNet.Lemmas.SrvStrand
+import ActixNet.Lemmas.WakerQueue
 /-!
 # C05 — pause, resume and accept-error back-off never strand a listener
 
@@ -288,5 +289,27 @@ example : (yieldPt demoCfg (run demoCfg i0 [.env (.cmd .resume)])).wq = [.resume
 example : sPaused.paused = true ∧ (∀ i ∈ sPaused.wq, i ≠ Interest.resume) := by decide
 -- `running_listener_is_registered`: running, no deadline
 example : i0.exited = false ∧ i0.paused = false ∧ (i0.lst 1).deadline = none ∧ 1 < i0.nLst := by decide
+
+
+/-- The critical sections of the waker queue are what the model assumes (T1, from the current source): producers push
+    under the lock, the accept thread pops under a guard taken per iteration and resets an empty queue under the SAME
+    guard. -/
+theorem waker_queue_shape :
+    (Src.wqGuardPerIteration && Src.wqPopUnderGuard && Src.wqDrainedResetsUnderSameGuard && Src.wqDrainedReturns &&
+     Src.wqWakePushesUnderLock && Src.wqWakeRingsAfterPush && Src.wqResetIsSwapWithEmpty) = true := by decide
+
+/-- Pause / Resume / Stop commands and worker notifications are never lost on their way to the accept thread: for EVERY
+    interleaving of `wake` calls (any number of threads) with the accept thread's locked sections, what has been processed
+    followed by what is still queued is exactly what was pushed, in order.  (The engine's `wq-race` op runs a real producer
+    thread against the real loop; seed13 C05-25 released the lock between the empty pop and the reset.) -/
+theorem queued_commands_are_never_lost {α : Type} (steps : List (WakerQueue.Step α)) :
+    (WakerQueue.run ({} : WakerQueue.Q α) steps).processed ++ (WakerQueue.run ({} : WakerQueue.Q α) steps).queue
+      = WakerQueue.pushed steps := by
+  simpa using WakerQueue.lossless steps ({} : WakerQueue.Q α)
+
+-- non-vacuity: a push that lands between two locked sections of the accept thread is still processed …
+example : (WakerQueue.run ({} : WakerQueue.Q Nat) [.push 1, .pop, .pop, .push 2, .pop]).processed = [1, 2] := by decide
+-- … whereas with the lock released between "found empty" and "reset" (two steps) the same push is wiped out:
+example : ([WakerQueue.Step'.push 1, .pop, .pop, .push 2, .resetAfterEmpty, .pop].foldl WakerQueue.step' ({} : WakerQueue.Q Nat)).processed = [1] := by decide
 
 end ActixNet.C05
